@@ -340,15 +340,23 @@ def rule_r2(ctx) -> List[R.Inst]:
 fn_optional = {}
 
 
-def writer_slots(ctx, cq: str):
+def writer_slots(ctx, cq: str, _subst=False):
     """field -> (coord, ops, expr) and literal slots for ``write_string``."""
     M = ctx.M
-    fn = M.fn(cq + ".write_string")
+    if _subst is False:
+        first = writer_slots(ctx, cq, _subst=None)
+        if any(v[0] == "?" and "Name" in str(v[1]) for v in first[0].values()):
+            # values named before the string is put together (`head = int(self.offset)`) stand for their definitions — tried only
+            # when a slot holds a bare local, and kept only if it reads more slots (locals that name PARTS of the text must stay)
+            try:
+                second = writer_slots(ctx, cq, _subst=True)
+                if sum(v[0] == "?" for v in second[0].values()) < sum(v[0] == "?" for v in first[0].values()) and len(second[0]) >= len(first[0]):
+                    return second
+            except AnalysisError:
+                pass
+        return first
+    fn = M.fn(cq + ".write_string") if _subst is None else M.nfn(cq + ".write_string", subst=True)
     rets = returns_of(fn.node)
-    if len(rets) == 1 and isinstance(rets[0].value, ast.JoinedStr):
-        # values named before the string is put together (`head = int(self.offset)`) stand for their definitions
-        fn = M.nfn(cq + ".write_string", subst=True)
-        rets = returns_of(fn.node)
     if len(rets) != 1:
         raise AnalysisError(f"{cq}.write_string: expected one return")
     rv = rets[0].value
